@@ -579,7 +579,10 @@ def execute(mod, tier, seed, replay=None, repo="/repo"):
     for o in obligations:
         if not o[1]:
             run.log("UNDISCHARGED obligation: %s %s" % (o[0][:200], o[2][:200]))
-    os.makedirs(os.path.join(VERIF, "evidence"), exist_ok=True)
-    json.dump(evid, open(os.path.join(VERIF, "evidence", "%s.json" % mod.ID), "w"), indent=1)
+    # evidence/<id>.json describes runs against /repo only; a run against another tree (--repo, seeded changes) keeps
+    # its record under build/ so that it can never replace the committed evidence
+    evdir = os.path.join(VERIF, "evidence") if repo == "/repo" and not replay else os.path.join(BUILD, "evidence_other")
+    os.makedirs(evdir, exist_ok=True)
+    json.dump(evid, open(os.path.join(evdir, "%s.json" % mod.ID), "w"), indent=1)
     run.log("done exit=%d wall=%.1fs" % (exit_code, time.time() - run.t0))
     return exit_code
